@@ -99,6 +99,10 @@ def div(n, kinds=("Ret",)):
     if k == "LetS":
         return div(n["init"], kinds) if "init" in n else FALSE
     if k == "Block":
+        seq = list(n["stmts"]) + ([n["expr"]] if n.get("expr") is not None else [])
+        if any(div(s, kinds) == TRUE for s in seq):
+            # some statement always leaves: every path through the block leaves at it or before it
+            return TRUE
         acc = FALSE
         notyet = TRUE
         for s in n["stmts"]:
@@ -158,6 +162,18 @@ def guards_of(root, target):
             # guards outside a closure do not govern its (later) invocations
             break
     return g
+
+
+def conj_lits(f):
+    """Literals that hold for sure: the top-level conjuncts of the guard formula."""
+    if f[0] == "lit":
+        return [f]
+    if f[0] == "and":
+        out = []
+        for x in f[1]:
+            out += conj_lits(x)
+        return out
+    return []
 
 
 def lits_of(f):
